@@ -119,7 +119,7 @@ def fill_text(
         subsequent_indent = extra_indent + text_wrap.subsequent_indent
 
         # These vary by wrap mode.
-        width = width - len_fn(subsequent_indent)
+        # (The indents are counted against the width by `wrap_paragraph()` itself.)
         replace_whitespace = text_wrap.replace_whitespace
 
         paragraphs = split_paragraphs(text)
